@@ -90,6 +90,21 @@ func RunLife(r *ev.Result, b run.Batch, seed int64, prop string, n int) {
 	runEpisodes(r, b, seed, sc, prop+":")
 }
 
+// RunClientLife runs n "clientlife" episodes (lib/prodwt/clientlife.go: a production-build client
+// in a private mount + network namespace) and reports the problems that belong to property prop.
+func RunClientLife(r *ev.Result, b run.Batch, seed int64, prop string, n int) {
+	if exec.Command("unshare", "-n", "-m", "--", "sh", "-c", "mount -t tmpfs tmpfs /opt").Run() != nil {
+		r.Count("prodwt.no_mount_namespace", 1)
+		r.Note("production client episodes need a private mount namespace (the production energy file path is fixed); skipped")
+		return
+	}
+	var sc []string
+	for i := 0; i < n; i++ {
+		sc = append(sc, "clientlife")
+	}
+	runEpisodes(r, b, seed, sc, prop+":")
+}
+
 func runEpisodes(r *ev.Result, b run.Batch, seed int64, scenarios []string, only string) {
 	bin, err := Build()
 	if err != nil {
@@ -115,7 +130,9 @@ func runEpisodes(r *ev.Result, b run.Batch, seed int64, scenarios []string, only
 		run.Op("production-build episode scenario=%s seed=%d namespace=%v", sc, es, ns)
 		ctx, cancel := context.WithTimeout(context.Background(), 150*time.Second)
 		var cmd *exec.Cmd
-		if ns {
+		if sc == "clientlife" {
+			cmd = exec.CommandContext(ctx, "unshare", "-n", "-m", "--", "sh", "-c", `ip link set lo up && mount -t tmpfs tmpfs /opt && mount -t tmpfs tmpfs /dev/shm && exec "$0" "$@"`, bin, work, fmt.Sprint(es), sc)
+		} else if ns {
 			cmd = exec.CommandContext(ctx, "unshare", "-n", "--", "sh", "-c", `ip link set lo up && exec "$0" "$@"`, bin, work, fmt.Sprint(es), sc)
 		} else {
 			cmd = exec.CommandContext(ctx, bin, work, fmt.Sprint(es), sc)
@@ -197,13 +214,13 @@ func runEpisodes(r *ev.Result, b run.Batch, seed int64, scenarios []string, only
 		}
 		r.Count("prodwt.episodes", 1)
 		r.Count("prodwt.scenario."+sc, 1)
-		if sc == "life" {
+		if sc == "life" || sc == "clientlife" {
 			for k, v := range result {
 				if f, ok := v.(float64); ok {
-					r.Count("prodwt.life."+k, int64(f))
+					r.Count("prodwt."+sc+"."+k, int64(f))
 				}
 			}
-			r.Nontrivial(fmt.Sprintf("prodwt/life/%d", es))
+			r.Nontrivial(fmt.Sprintf("prodwt/%s/%d", sc, es))
 			if i == 0 {
 				r.Sample(map[string]interface{}{"production_build_episode": sc, "result": result})
 			}
